@@ -16,7 +16,7 @@ extern "C" int vf_run_case(const uint8_t * data, size_t size)
 {
    static CompleteSetupSystem * css = NULL; if (css == NULL) {css = new CompleteSetupSystem; SetConsoleLogLevel(MUSCLE_LOG_NONE);}
    vf::BS bs(data, size);
-   GenOpts opts; opts.allowZeroItemFields = true; opts.allowCopies = true; Generator gen(bs, opts);
+   GenOpts opts; opts.allowZeroItemFields = true; opts.allowCopies = true; opts.allowEmptiedInPlace = true; Generator gen(bs, opts);
    Message msg; MMsg mod; gen.Gen(0, msg, mod);
    const GenStats & st = gen.st;
 
@@ -97,7 +97,7 @@ extern "C" int vf_run_case(const uint8_t * data, size_t size)
    if (st.maxDepth >= 2) vf::Count("case_nesting_ge_2");
    if (st.hasNonFlattenable) vf::Count("case_with_pointer_or_tag_field");
    if (st.hasNaN) vf::Count("case_with_nan"); else vf::Count("case_equality_asserted");
-   if (st.hasZeroLenRaw) vf::Count("case_with_zero_length_raw_item"); if (st.heldCopy) vf::Count("case_copy_kept_while_the_original_was_modified"); if (st.mutatedCopy) vf::Count("case_copy_modified_original_rechecked"); if (st.swappedField) vf::Count("case_field_swapped_with_another_message"); if (st.hasZeroItemField) vf::Count("case_with_a_field_emptied_through_a_sharing_message");
+   if (st.hasZeroLenRaw) vf::Count("case_with_zero_length_raw_item"); if (st.heldCopy) vf::Count("case_copy_kept_while_the_original_was_modified"); if (st.emptiedInPlace) vf::Count("case_zero_length_raw_item_from_a_buffer_emptied_in_place"); if (st.mutatedCopy) vf::Count("case_copy_modified_original_rechecked"); if (st.swappedField) vf::Count("case_field_swapped_with_another_message"); if (st.hasZeroItemField) vf::Count("case_with_a_field_emptied_through_a_sharing_message");
    if (st.sharedSub) vf::Count("case_with_shared_submessage");
    if (st.maxItems >= 17) vf::Count("case_with_field_of_17_or_more_items");
    if (fs > 2048) vf::Count("case_flattened_over_2048_bytes");
